@@ -52,6 +52,31 @@ impl Norm for Result<P, RecvError> {
         }
     }
 }
+impl Norm for Result<Vec<P>, RecvError> {
+    fn norm(self) -> Res {
+        match self {
+            Ok(v) => Res::Vals(v.into_iter().map(|p| p.open()).collect()),
+            Err(RecvError::Disconnected) => Res::Disc,
+        }
+    }
+}
+impl Norm for Result<Vec<P>, TryRecvError> {
+    fn norm(self) -> Res {
+        match self {
+            Ok(v) => Res::Vals(v.into_iter().map(|p| p.open()).collect()),
+            Err(TryRecvError::Empty) => Res::Empty,
+            Err(TryRecvError::Disconnected) => Res::Disc,
+        }
+    }
+}
+impl Norm for Result<(), CloseError> {
+    fn norm(self) -> Res {
+        match self {
+            Ok(()) => Res::Ok,
+            Err(_) => Res::CloseErr,
+        }
+    }
+}
 impl Norm for Result<P, RecvErrorTimeout> {
     fn norm(self) -> Res {
         match self {
@@ -73,6 +98,10 @@ pub trait Tx: Send {
     fn clone_tx(&self) -> Box<dyn Tx> {
         panic!("MACHINERY|sender clone unsupported on this flavour")
     }
+    /// explicit `close()` on the handle (the handle itself stays alive until dropped)
+    fn close_tx(&mut self) -> Res {
+        panic!("MACHINERY|close unsupported on this handle")
+    }
 }
 pub trait Rx: Send {
     fn is_async(&self) -> bool;
@@ -88,6 +117,21 @@ pub trait Rx: Send {
     fn clone_rx(&self) -> Box<dyn Rx> {
         panic!("MACHINERY|receiver clone unsupported on this flavour")
     }
+    /// blocking `recv_batch(max)` (sync handle) or `block_on(recv_batch(max))` (async handle)
+    fn recv_batch(&mut self, _max: usize) -> Res {
+        panic!("MACHINERY|recv_batch unsupported on this handle")
+    }
+    fn try_recv_batch(&mut self, _max: usize) -> Res {
+        panic!("MACHINERY|try_recv_batch unsupported on this handle")
+    }
+    /// `recv_timeout(1 h)`: the deadline never passes inside a model run, the timed park is an
+    /// untimed loom park (hook H7) — the park/wake protocol of the timed path
+    fn recv_tlong(&mut self) -> Res {
+        panic!("MACHINERY|recv_timeout unsupported on this handle")
+    }
+    fn close_rx(&mut self) -> Res {
+        panic!("MACHINERY|close unsupported on this handle")
+    }
 }
 
 pub struct W<H>(pub H);
@@ -98,11 +142,13 @@ macro_rules! feat {
         fn is_async(&self) -> bool { false }
         fn try_send(&mut self, p: P) -> Res { self.0.try_send(p).norm() }
         fn send(&mut self, p: P) -> Res { self.0.send(p).norm() }
+        fn close_tx(&mut self) -> Res { self.0.close().norm() }
     };
     (tx_async) => {
         fn is_async(&self) -> bool { true }
         fn try_send(&mut self, p: P) -> Res { self.0.try_send(p).norm() }
         fn send(&mut self, p: P) -> Res { block_on(self.0.send(p)).norm() }
+        fn close_tx(&mut self) -> Res { self.0.close().norm() }
     };
     (tx_batch_sync) => {
         fn send_batch(&mut self, v: Vec<P>) -> Res { self.0.send_batch(v).norm() }
@@ -118,11 +164,22 @@ macro_rules! feat {
         fn try_recv(&mut self) -> Res { self.0.try_recv().norm() }
         fn recv(&mut self) -> Res { self.0.recv().norm() }
         fn recv_t0(&mut self) -> Res { self.0.recv_timeout(Duration::ZERO).norm() }
+        fn recv_tlong(&mut self) -> Res { self.0.recv_timeout(Duration::from_secs(3600)).norm() }
+        fn close_rx(&mut self) -> Res { self.0.close().norm() }
+    };
+    (rx_batch_sync) => {
+        fn recv_batch(&mut self, max: usize) -> Res { self.0.recv_batch(max).norm() }
+        fn try_recv_batch(&mut self, max: usize) -> Res { self.0.try_recv_batch(max).norm() }
+    };
+    (rx_batch_async) => {
+        fn recv_batch(&mut self, max: usize) -> Res { block_on(self.0.recv_batch(max)).norm() }
+        fn try_recv_batch(&mut self, max: usize) -> Res { self.0.try_recv_batch(max).norm() }
     };
     (rx_async) => {
         fn is_async(&self) -> bool { true }
         fn try_recv(&mut self) -> Res { self.0.try_recv().norm() }
         fn recv(&mut self) -> Res { block_on(self.0.recv()).norm() }
+        fn close_rx(&mut self) -> Res { self.0.close().norm() }
         fn recv_poll_drop(&mut self) -> Res {
             let (_wk, waker) = new_waker();
             let mut fut = Box::pin(self.0.recv());
@@ -148,8 +205,8 @@ macro_rules! rx_impl {
 // spsc bounded
 tx_impl!(fibre::spsc::BoundedSyncSender<P>, [tx_sync, tx_batch_sync]);
 tx_impl!(fibre::spsc::BoundedAsyncSender<P>, [tx_async, tx_batch_async]);
-rx_impl!(fibre::spsc::BoundedSyncReceiver<P>, [rx_sync]);
-rx_impl!(fibre::spsc::BoundedAsyncReceiver<P>, [rx_async]);
+rx_impl!(fibre::spsc::BoundedSyncReceiver<P>, [rx_sync, rx_batch_sync]);
+rx_impl!(fibre::spsc::BoundedAsyncReceiver<P>, [rx_async, rx_batch_async]);
 // spsc rendezvous
 tx_impl!(fibre::spsc::RendezvousSyncSender<P>, [tx_sync]);
 tx_impl!(fibre::spsc::RendezvousAsyncSender<P>, [tx_async]);
@@ -158,13 +215,13 @@ rx_impl!(fibre::spsc::RendezvousAsyncReceiver<P>, [rx_async]);
 // mpsc bounded
 tx_impl!(fibre::mpsc::BoundedSyncSender<P>, [tx_sync, tx_batch_sync, tx_clone]);
 tx_impl!(fibre::mpsc::BoundedAsyncSender<P>, [tx_async, tx_batch_async, tx_clone]);
-rx_impl!(fibre::mpsc::BoundedSyncReceiver<P>, [rx_sync]);
-rx_impl!(fibre::mpsc::BoundedAsyncReceiver<P>, [rx_async]);
+rx_impl!(fibre::mpsc::BoundedSyncReceiver<P>, [rx_sync, rx_batch_sync]);
+rx_impl!(fibre::mpsc::BoundedAsyncReceiver<P>, [rx_async, rx_batch_async]);
 // mpsc unbounded
 tx_impl!(fibre::mpsc::UnboundedSyncSender<P>, [tx_sync, tx_batch_sync, tx_clone]);
 tx_impl!(fibre::mpsc::UnboundedAsyncSender<P>, [tx_async, tx_batch_async, tx_clone]);
-rx_impl!(fibre::mpsc::UnboundedSyncReceiver<P>, [rx_sync]);
-rx_impl!(fibre::mpsc::UnboundedAsyncReceiver<P>, [rx_async]);
+rx_impl!(fibre::mpsc::UnboundedSyncReceiver<P>, [rx_sync, rx_batch_sync]);
+rx_impl!(fibre::mpsc::UnboundedAsyncReceiver<P>, [rx_async, rx_batch_async]);
 // mpsc rendezvous
 tx_impl!(fibre::mpsc::RendezvousSyncSender<P>, [tx_sync, tx_clone]);
 tx_impl!(fibre::mpsc::RendezvousAsyncSender<P>, [tx_async, tx_clone]);
@@ -173,13 +230,13 @@ rx_impl!(fibre::mpsc::RendezvousAsyncReceiver<P>, [rx_async]);
 // mpmc bounded
 tx_impl!(fibre::mpmc::Sender<P>, [tx_sync, tx_batch_sync, tx_clone]);
 tx_impl!(fibre::mpmc::AsyncSender<P>, [tx_async, tx_batch_async, tx_clone]);
-rx_impl!(fibre::mpmc::Receiver<P>, [rx_sync, rx_clone]);
-rx_impl!(fibre::mpmc::AsyncReceiver<P>, [rx_async, rx_clone]);
+rx_impl!(fibre::mpmc::Receiver<P>, [rx_sync, rx_batch_sync, rx_clone]);
+rx_impl!(fibre::mpmc::AsyncReceiver<P>, [rx_async, rx_batch_async, rx_clone]);
 // mpmc unbounded
 tx_impl!(fibre::mpmc::UnboundedSyncSender<P>, [tx_sync, tx_batch_sync, tx_clone]);
 tx_impl!(fibre::mpmc::UnboundedAsyncSender<P>, [tx_async, tx_batch_async, tx_clone]);
-rx_impl!(fibre::mpmc::UnboundedSyncReceiver<P>, [rx_sync, rx_clone]);
-rx_impl!(fibre::mpmc::UnboundedAsyncReceiver<P>, [rx_async, rx_clone]);
+rx_impl!(fibre::mpmc::UnboundedSyncReceiver<P>, [rx_sync, rx_batch_sync, rx_clone]);
+rx_impl!(fibre::mpmc::UnboundedAsyncReceiver<P>, [rx_async, rx_batch_async, rx_clone]);
 // mpmc rendezvous
 tx_impl!(fibre::mpmc::rendezvous::RendezvousSyncSender<P>, [tx_sync, tx_clone]);
 tx_impl!(fibre::mpmc::rendezvous::RendezvousAsyncSender<P>, [tx_async, tx_clone]);
@@ -293,16 +350,38 @@ impl Flavour {
     }
 }
 
+/// how the two sides are obtained
+#[derive(Clone, Copy, Debug, PartialEq, Eq)]
+pub enum Mix {
+    /// both sides from the flavour's native constructor (sync or async according to `asyn`)
+    Native,
+    /// sync constructor, receiver converted with `to_async()`: sync producer, async consumer
+    TxSyncRxAsync,
+    /// sync constructor, sender converted with `to_async()`: async producer, sync consumer
+    TxAsyncRxSync,
+}
+
 /// `cap`: Some(0) rendezvous, None unbounded. `asyn`: both handles async (native async constructor).
-pub fn make(fl: Flavour, cap: Option<usize>, asyn: bool) -> (Box<dyn Tx>, Box<dyn Rx>) {
+pub fn make(fl: Flavour, cap: Option<usize>, asyn: bool, mix: Mix) -> (Box<dyn Tx>, Box<dyn Rx>) {
     macro_rules! pair {
         ($sync:expr, $asyn:expr) => {{
-            if asyn {
-                let (t, r) = $asyn;
-                (Box::new(W(t)) as Box<dyn Tx>, Box::new(W(r)) as Box<dyn Rx>)
-            } else {
-                let (t, r) = $sync;
-                (Box::new(W(t)) as Box<dyn Tx>, Box::new(W(r)) as Box<dyn Rx>)
+            match mix {
+                Mix::Native if asyn => {
+                    let (t, r) = $asyn;
+                    (Box::new(W(t)) as Box<dyn Tx>, Box::new(W(r)) as Box<dyn Rx>)
+                }
+                Mix::Native => {
+                    let (t, r) = $sync;
+                    (Box::new(W(t)) as Box<dyn Tx>, Box::new(W(r)) as Box<dyn Rx>)
+                }
+                Mix::TxSyncRxAsync => {
+                    let (t, r) = $sync;
+                    (Box::new(W(t)) as Box<dyn Tx>, Box::new(W(r.to_async())) as Box<dyn Rx>)
+                }
+                Mix::TxAsyncRxSync => {
+                    let (t, r) = $sync;
+                    (Box::new(W(t.to_async())) as Box<dyn Tx>, Box::new(W(r)) as Box<dyn Rx>)
+                }
             }
         }};
     }
@@ -317,6 +396,7 @@ pub fn make(fl: Flavour, cap: Option<usize>, asyn: bool) -> (Box<dyn Tx>, Box<dy
         Flavour::MpmcUnbounded => pair!(fibre::mpmc::unbounded::<P>(), fibre::mpmc::unbounded_async::<P>()),
         Flavour::MpmcRendezvous => pair!(fibre::mpmc::rendezvous::rendezvous::<P>(), fibre::mpmc::rendezvous::rendezvous_async::<P>()),
         Flavour::Oneshot => {
+            assert!(mix == Mix::Native, "MACHINERY|oneshot has no conversions");
             let (t, r) = fibre::oneshot::oneshot::<P>();
             (Box::new(OneTx(Some(t))) as Box<dyn Tx>, Box::new(OneRx(r)) as Box<dyn Rx>)
         }
